@@ -84,7 +84,7 @@ CSV = {
     "EEMSRead": {"params": {"InFileName": P("path_in"), "InFieldName": P("string"), "MissingVal": NUM(False),
                             "DataType": P("datatype", False)}, "out": "data", "fuzzy": False},
     # The CSV writer's result is not data: the documentation gives it no value a data input could use.
-    "EEMSWrite": {"params": {"OutFileName": P("path_out"), "OutFieldNames": P("results")}, "out": None,
+    "EEMSWrite": {"params": {"OutFileName": P("path_out"), "OutFieldNames": P("results")}, "out": "bool",
                   "fuzzy": False},
 }
 
